@@ -7,8 +7,9 @@ the representation invariant of `FencedString` (the char-start table is empty ov
 holds the UTF-8 byte offset of every character).
 -/
 import XrayProofs.FString
+import XrayProofs.Lex
 namespace XrayModel.C18
-open XrayModel.FStr XrayModel.FStr.FS
+open XrayModel.FStr XrayModel.FStr.FS XrayModel.Lex
 
 /-- `from_string` keeps the text, establishes the invariant, and is canonical: the table is empty exactly
 when every character is ASCII -/
@@ -105,5 +106,47 @@ example : ¬ (FS.mk ['a', 'i', '\u0307', 'b'] (fromString ['a', 'İ', 'b']).star
   · revert h; decide
 example : get (fromString ['a', 'b', 'c']) 5 = .err "index out of bounds" := by decide
 example : find (fromString ['é', 'a']) (fromString ['a']) none = .ok (some 1) := by decide
+
+/-! ### literals (model: XrayModel/Lex.lean, `parseLiteral` = the `#`-fence / quote scanner of xray.pest followed by
+`apply_escapes`; `escapes_total` and `escapes_plain` are in Props/C12.lean) -/
+
+/-- a raw literal `r#…#"t"#…#` (either quote kind, any fence) denotes exactly `t` when `t` does not contain the
+quote character -/
+theorem raw_literal_means_itself (q : Char) (hq : isQuote q) (n : Nat) (t : List Char) (hnot : q ∉ t) :
+    parseLiteral ('r' :: (List.replicate n '#' ++ q :: (t ++ q :: List.replicate n '#'))) = some (.ok t, []) :=
+  parseLiteral_raw q hq n t (no_close_of_not_mem q n t _ hnot)
+
+/-- a plain literal whose text has neither the quote character nor a backslash denotes exactly that text -/
+theorem plain_literal_means_itself (q : Char) (hq : isQuote q) (n : Nat) (t : List Char) (hnot : q ∉ t)
+    (hb : ∀ c ∈ t, c ≠ '\\') :
+    parseLiteral (List.replicate n '#' ++ q :: (t ++ q :: List.replicate n '#')) = some (.ok t, []) :=
+  parseLiteral_plain q hq n t hb (no_close_of_not_mem q n t _ hnot)
+
+/-- inside a fence of at least one `#` the text may contain its own quote character, as long as no quote is
+directly followed by `#`: the literal still denotes exactly the text (the fence is matched, not the first quote) -/
+theorem fence_admits_quotes (q : Char) (hq : isQuote q) (n : Nat) (hn : 1 ≤ n) (t : List Char)
+    (h : ∀ i, t[i]? = some q → t[i + 1]? ≠ some '#') :
+    parseLiteral ('r' :: (List.replicate n '#' ++ q :: (t ++ q :: List.replicate n '#'))) = some (.ok t, []) ∧
+    ((∀ c ∈ t, c ≠ '\\') →
+      parseLiteral (List.replicate n '#' ++ q :: (t ++ q :: List.replicate n '#')) = some (.ok t, [])) :=
+  ⟨parseLiteral_raw q hq n t (no_close_of_fence q hq n hn t h),
+   fun hb => parseLiteral_plain q hq n t hb (no_close_of_fence q hq n hn t h)⟩
+
+/-- the escape sequences of the book (string_literals.md) denote the documented characters; an undocumented
+one is a compilation error, never a character -/
+theorem escape_table :
+    applyEscapes ['\\', 'n'] = .ok ['\n'] ∧ applyEscapes ['\\', 'r'] = .ok ['\r'] ∧
+    applyEscapes ['\\', 't'] = .ok ['\t'] ∧ applyEscapes ['\\', '\\'] = .ok ['\\'] ∧
+    applyEscapes ['\\', '"'] = .ok ['"'] ∧ applyEscapes ['\\', '\''] = .ok ['\''] ∧
+    applyEscapes ['\\', '0'] = .ok [Char.ofNat 0] ∧
+    applyEscapes "\\u{1F600}".toList = .ok ['😀'] ∧ applyEscapes "\\u{41}".toList = .ok ['A'] ∧
+    applyEscapes "\\q".toList = .error "BadEscapeSequence" ∧
+    applyEscapes "\\u{110000}".toList = .error "BadEscapeSequence" ∧
+    applyEscapes "\\u{D800}".toList = .error "BadEscapeSequence" ∧
+    applyEscapes "\\u{+41}".toList = .error "BadEscapeSequence" ∧
+    applyEscapes "\\u{0000041}".toList = .error "BadEscapeSequence" := by decide
+
+example : parseLiteral "##\"a\"#b\"##".toList = some (.ok "a\"#b".toList, []) := by decide
+example : parseLiteral "'it\\'s'".toList = some (.ok "it's".toList, []) := by decide
 
 end XrayModel.C18
